@@ -1,5 +1,6 @@
 import GqlProofs.Lexer.Pos
 import GqlProofs.Lexer.SpecLex
+import GqlProofs.Lexer.UniLex
 /-
   C04 — every reported position is truthful (lexer part).
 
@@ -8,16 +9,15 @@ import GqlProofs.Lexer.SpecLex
   that every token the model's `lexAll` returns carries exactly that line and column for its start
   offset, and an extent inside the source.
 
-  Scope (why `_partial`): proved for sources whose bytes are all < 128, where byte offsets, rune
-  offsets and code-point offsets coincide (`Ascii`).  For sources with multi-byte characters the same
-  statement is checked by the exhaustive/random three-way run of ./check C04 (lex19 contains a two-byte
-  character and the BOM).  The `+ 1` for `String` tokens is the recorded known finding
-  `string-column-off-by-one` (pinned by the repository's own parser tests): the theorem states the
-  model's — and the code's — actual behaviour exactly, it does not hide it.
-
-  Full-strength statement, not yet proved:
-    theorem C04_token_pos (inp) (cps) (h : utf8Encode cps = inp ∧ all cps scalar values) :
-      ∀ t ∈ (lexAll inp).tokens, … = lineOf cps t.start ∧ … = colOfOffset cps t.start
+  `C04_token_pos_ascii_partial` is the ASCII case, where byte offsets, rune offsets and code-point
+  offsets coincide.  `C04_token_pos_utf8` is the full statement: for EVERY well-formed UTF-8 source
+  (`Utf8.decode inp = some cps`) start / stop are offsets in CODE POINTS inside the decoded text, line
+  and column are `Spec.posAt` on the decoded text (column counts code points, CRLF counts once, the
+  BOM is one character).  `C04_tokens_are_spec_tokens_utf8`: the model's token list IS the list of
+  the specification's tokens with the specification's positions.
+  The `+ 1` for `String` tokens is the recorded known finding `string-column-off-by-one` (pinned by
+  the repository's own parser tests): the theorems state the model's — and the code's — actual
+  behaviour exactly, they do not hide it.
 -/
 open Gql Gql.Lexer Gql.Lexer.Spec
 
@@ -160,4 +160,66 @@ theorem C04_tokens_are_spec_tokens_ascii (inp : Bytes) (hA : Ascii inp)
     have := tokens_eq_of_obs inp ts toks e4 (fun t ht => htr t (by simp [LexOut.tokens, ht]))
     exact ⟨e, by rw [e1, this]⟩
 
+/-! ### every well-formed UTF-8 source -/
+
+/-- Every token of a well-formed UTF-8 source `inp` with code points `cps` carries the line and
+    column that the position specification computes on the DECODED text for the token's start offset
+    (offsets count code points: a multi-byte character is one column, CRLF is one line terminator,
+    the BOM is one character), and its extent lies inside the decoded text (String tokens: column
+    + 1, the recorded known finding).  No hypothesis on block strings. -/
+theorem C04_token_pos_utf8 (inp : Bytes) (cps : List Nat) (h : Utf8.decode inp = some cps) :
+    ∀ t ∈ (lexAll inp).tokens, TokenTruthful cps t := by
+  obtain ⟨h1, h2⟩ := Utf8.decode_sound inp cps h
+  rw [← h1]
+  exact lexAll_truthful_u cps h2
+
+/-- the same on the code points -/
+theorem C04_token_pos_scalars (cps : List Nat) (hs : AllScalar cps) :
+    ∀ t ∈ (lexAll (utf8Encode cps)).tokens, TokenTruthful cps t :=
+  lexAll_truthful_u cps hs
+
+/-- Corollary for everything except quoted strings: line and column are exactly the specified ones. -/
+theorem C04_token_pos_utf8_nonstring (inp : Bytes) (cps : List Nat) (h : Utf8.decode inp = some cps)
+    (t : Token) (ht : t ∈ (lexAll inp).tokens) (hk : t.kind ≠ .string) :
+    t.line = lineOf cps t.start ∧ t.col = colOfOffset cps t.start := by
+  have := C04_token_pos_utf8 inp cps h t ht
+  exact ⟨this.2.2.1, by simpa [hk] using this.2.2.2⟩
+
+/-- Every token of the lexical grammar is reported by the model with exactly the line and column
+    of the position specification: for every well-formed UTF-8 source (block strings as in
+    `C03_lex_utf8`) the model's token list IS the list of the specification's tokens of the decoded
+    text, each with kind / value / extent from `Spec.lex` and line / column from `Spec.lineOf` /
+    `Spec.colOfOffset` (String tokens: column + 1), followed by the EOF token or the error. -/
+theorem C04_tokens_are_spec_tokens_utf8 (inp : Bytes) (cps : List Nat) (h : Utf8.decode inp = some cps)
+    (hb : BlocksOK (cps.length + 1) cps = true) :
+    match Spec.lex cps with
+    | .ok toks => ∃ eof, lexAll inp = .done (toks.map (specTokenView cps) ++ [eof]) ∧ eof.kind = .eof
+    | .error toks => ∃ e, lexAll inp = .fail (toks.map (specTokenView cps)) e := by
+  obtain ⟨h1, h2⟩ := Utf8.decode_sound inp cps h
+  have hl := lexAll_lex_u cps h2 hb
+  have htr := C04_token_pos_utf8 inp cps h
+  rw [h1] at hl
+  cases hs : Spec.lex cps with
+  | ok toks =>
+    rw [hs] at hl
+    obtain ⟨ts, eof, e1, e2, _, e4⟩ := hl
+    rw [e1] at htr
+    have := tokens_eq_of_obs cps ts toks e4 (fun t ht => htr t (by simp [LexOut.tokens, ht]))
+    exact ⟨eof, by rw [e1, this], e2⟩
+  | error toks =>
+    rw [hs] at hl
+    obtain ⟨ts, e, e1, e4⟩ := hl
+    rw [e1] at htr
+    have := tokens_eq_of_obs cps ts toks e4 (fun t ht => htr t (by simp [LexOut.tokens, ht]))
+    exact ⟨e, by rw [e1, this]⟩
+
+-- non-vacuity: `é` (two bytes) then a name on the next line after CRLF; the name is at line 2 column 1
+example : Utf8.decode [35, 0xC3, 0xA9, 13, 10, 97] = some [35, 0xE9, 13, 10, 97] := by decide
+example : lineOf [35, 0xE9, 13, 10, 97] 4 = 2 ∧ colOfOffset [35, 0xE9, 13, 10, 97] 4 = 1 := by decide
+
 #print axioms C04_tokens_are_spec_tokens_ascii
+#print axioms C04_token_pos_ascii_partial
+#print axioms C04_token_pos_utf8
+#print axioms C04_token_pos_scalars
+#print axioms C04_token_pos_utf8_nonstring
+#print axioms C04_tokens_are_spec_tokens_utf8
